@@ -139,6 +139,8 @@ static int vf_parallel(int nw, long lo, long hi, void (*fn)(long), void (*fin)(v
             snprintf(k, sizeof k, "worker-crash/%d", w);
             vf_fail(k, "worker %d died with signal %d", w, WTERMSIG(st));
             bad++;
+        } else if (WEXITSTATUS(st) == 2) {     /* harness-internal error in a worker: infrastructure, not a violation */
+            fprintf(stderr, "worker %d reported a harness error\n", w); fflush(stdout); _exit(2);
         } else if (WEXITSTATUS(st) != 0) {
             bad++;
         }
